@@ -190,7 +190,7 @@ theorem calm_maildirUnlink (md : Maildir) (name : Bytes) : Calls Calm (maildirUn
   simp only [bind_eq, pure_eq, call_bind]
   repeat' calm_step
 
-theorem calm_execP (fdin : Option Handle) : Calls Calm (execP fdin) := by
+theorem calm_execP (argv : List Bytes) (fdin : Option Handle) : Calls Calm (execP argv fdin) := by
   unfold execP
   simp only [bind_eq, pure_eq, call_bind]
   repeat' calm_step
@@ -544,7 +544,7 @@ theorem aux_execOne (env : PEnv) (mh : Match) (st : ExecSt) (tr : Trace) :
       | none => exact True.intro
       | some fd =>
         dsimp only
-        refine wp_bind_ext (wp_calm (calm_execP fd) _) ?_
+        refine wp_bind_ext (wp_calm (calm_execP _ fd) _) ?_
         intro rc L1 _
         cases fd with
         | none => exact True.intro
@@ -601,7 +601,11 @@ theorem ParseCall.inert {d : Handle} {c : Call} (h : ParseCall d c) : Inert c :=
   rcases h with ⟨nm, rfl⟩ | ⟨fd, rfl⟩ | ⟨fd, rfl⟩ <;> exact True.intro
 
 theorem EvalCall.inert {c : Call} (h : EvalCall c) : Inert c := by
-  rcases h with rfl | rfl | rfl | ⟨_, rfl⟩ | ⟨_, rfl⟩ <;> exact True.intro
+  rcases h with rfl | h | rfl | ⟨_, rfl⟩ | ⟨_, rfl⟩
+  · exact True.intro
+  · obtain ⟨_, _, rfl⟩ := Call.isFork_iff.1 h
+    exact True.intro
+  all_goals exact True.intro
 
 theorem wp_inert {α} {p : Prog α} (src : Bytes) (hc : Calls Inert p) (tr : Trace) :
     wp R (Framed src) p (fun _ _ => True) tr :=
